@@ -387,9 +387,16 @@ package litefs
 //@   ensures   r.frameN == old(r.frameN)
 //@   nopanic
 
+// The cumulative checksum of a frame is chained from the reader's running pair, over the first 8 header bytes and then the
+// page data, both in the byte order the WAL header's magic selected (r.bo) - SQLite's rule; a frame is accepted only after
+// both folds, and the byte order never changes while frames are read.
 //@ func (r *WALReader) ReadFrame [C17,C03,C05]
 //@   requires  walReaderReady(r)
 //@   modifies  fields(r), contents(data)
+//@   ghost nck int = 0
+//@   on call WALChecksum assert arg0 == old(r.bo) && arg1 == r.chksum1 && arg2 == r.chksum2 && (nck == 0 ? len(arg3) == 8 : nck == 1 && len(arg3) == len(data)) ; then nck = nck + 1
+//@   proves    err == nil ==> nck == 2
+//@   ensures   r.bo == old(r.bo) && r.salt1 == old(r.salt1) && r.salt2 == old(r.salt2)
 //@   ensures   walReaderReady(r) && r.pageSize == old(r.pageSize)
 //@   ensures   err == nil ==> r.frameN == old(r.frameN) + 1
 //@   ensures   err != nil ==> r.frameN == old(r.frameN) && pgno == 0 && commit == 0
